@@ -19,13 +19,17 @@ from onnx import TensorProto as TP
 from onnx import helper as h
 
 KINDS = {"F2": (TP.FLOAT, [2]), "F22": (TP.FLOAT, [2, 2]), "B": (TP.BOOL, []), "I": (TP.INT64, []), "I2": (TP.INT64, [2]),
-         "S2": (TP.STRING, [2]), "S": (TP.STRING, []), "F20": (TP.FLOAT, [20]), "F1": (TP.FLOAT, [1]), "I1": (TP.INT64, [1])}
+         "S2": (TP.STRING, [2]), "S": (TP.STRING, []), "F20": (TP.FLOAT, [20]), "F1": (TP.FLOAT, [1]), "I1": (TP.INT64, [1]),
+         "J2": (TP.INT32, [2]), "F21": (TP.FLOAT, [2, 1])}
 
 
 def _tensor(name, kind, data):
     dt, shape = KINDS[kind]
     if dt == TP.STRING:
-        vals = [bytes(x) for x in data]
+        # built by hand: helper.make_tensor goes through numpy and strips trailing NUL bytes
+        t = onnx.TensorProto(name=name, data_type=TP.STRING, dims=shape)
+        t.string_data.extend([bytes(x) for x in data])
+        return t
     elif dt == TP.BOOL:
         vals = [bool(x) for x in data]
     else:
@@ -184,7 +188,8 @@ class Gen:
                 continue
             if nodes and c < 0.24:
                 # duplicate (or near-duplicate) of an earlier node of this scope: CSE candidates
-                src = copy.deepcopy(r.choice(nodes))
+                multi = [n for n in nodes if n["op"] in ("Dropout", "MaxPool", "Unique", "Split", "TopK")]
+                src = copy.deepcopy(r.choice(multi) if multi and r.random() < 0.5 else r.choice(nodes))
                 if any(tv[0] == "g" for tv in src.get("attrs", {}).values()) and r.random() < 0.7:
                     continue
                 outs = []
@@ -196,6 +201,15 @@ class Gen:
                     no = self.fresh()
                     outs.append(no)
                     pool.append((no, k)); local.append((no, k))
+                # same operator / inputs / attributes but another NUMBER of outputs (optional outputs)
+                extra = {"Dropout": "B2", "MaxPool": "I112", "Unique": "ID"}.get(src["op"])
+                if extra and r.random() < 0.6:
+                    if len(outs) > 1 and r.random() < 0.5:
+                        outs = outs[:-1]
+                    elif len(outs) < (4 if src["op"] == "Unique" else 2):
+                        no = self.fresh()
+                        outs.append(no)
+                        pool.append((no, extra)); local.append((no, extra))
                 src["outs"] = outs
                 if r.random() < 0.25 and src.get("attrs"):
                     k = r.choice(sorted(src["attrs"]))
@@ -207,7 +221,14 @@ class Gen:
                 nodes.append(src)
                 continue
             o = self.fresh()
-            if c < 0.40:
+            j2, f21 = self.pick(pool, "J2"), self.pick(pool, "F21")
+            if j2 is not None and r.random() < 0.15:
+                nodes.append({"op": "Cast", "ins": [j2], "outs": [o], "attrs": {"to": ["i", 1]}})
+                pool.append((o, "F2")); local.append((o, "F2"))
+            elif f21 is not None and r.random() < 0.15:
+                nodes.append({"op": "Mul", "ins": [x, f21], "outs": [o], "attrs": {}})
+                pool.append((o, "F22")); local.append((o, "F22"))
+            elif c < 0.40:
                 nodes.append({"op": r.choice(F_UN), "ins": [x], "outs": [o], "attrs": {}})
                 pool.append((o, "F2")); local.append((o, "F2"))
             elif c < 0.56:
@@ -236,7 +257,7 @@ class Gen:
                     attrs["alpha"] = ["ref", [1, r.choice(in_function["params"])]]
                 nodes.append({"op": op, "ins": [x], "outs": [o], "attrs": attrs})
                 pool.append((o, "F2")); local.append((o, "F2"))
-            elif c < 0.70:
+            elif c < 0.68:
                 # optional inputs: Clip(x, min?, max?) with "" and trailing ""
                 mn = self.pick(pool, "F") if r.random() < 0.5 else None
                 ins = [x, "", ""]
@@ -253,7 +274,7 @@ class Gen:
                 nodes.extend(pre)
                 nodes.append({"op": "Clip", "ins": ins, "outs": [o], "attrs": {}})
                 pool.append((o, "F2")); local.append((o, "F2"))
-            elif c < 0.78:
+            elif c < 0.80:
                 # multi-output / optional outputs
                 op = r.choice(["Split", "Dropout", "TopK", "Unique", "BatchNormalization", "MaxPool"])
                 if op == "Split":
@@ -302,6 +323,18 @@ class Gen:
                     pool += [(x3, "F112"), (o, "F112")]; local += [(x3, "F112"), (o, "F112")]
                     if len(outs) > 1:
                         pool.append((outs[1], "I112")); local.append((outs[1], "I112"))
+                last = nodes[-1]
+                if last["op"] in ("Dropout", "MaxPool", "Unique") and r.random() < 0.45:
+                    # sibling: same operator, inputs, attributes — another number of (optional) outputs
+                    sib = copy.deepcopy(last)
+                    extra = {"Dropout": "B2", "MaxPool": "I112", "Unique": "ID"}[last["op"]]
+                    k0 = next(kk for nn, kk in pool if nn == last["outs"][0])
+                    n_new = 1 if len(last["outs"]) > 1 else 2
+                    sib["outs"] = [self.fresh() for _ in range(n_new)]
+                    pool.append((sib["outs"][0], k0)); local.append((sib["outs"][0], k0))
+                    for q in sib["outs"][1:]:
+                        pool.append((q, extra)); local.append((q, extra))
+                    nodes.append(sib)
             elif c < 0.86 and depth > 0:
                 self.ensure_b(nodes, pool, local)
                 nodes.append(self.gen_if(pool, depth, o, in_function))
@@ -464,9 +497,13 @@ class Gen:
         pool = [(n, k) for n, k in inputs]
         inits = []
         for i in range(r.choice([0, 1, 2, 3, 4])):
-            kind = r.choice(["F2", "F2", "F2", "S2", "F20", "B"])
+            kind = r.choice(["F2", "F2", "F2", "S2", "F20", "B", "J2", "F21"])
             if kind == "F2":
                 data = r.choice([[1.0, 2.0], [1.0, 2.0], [0.0, 1.0], [-0.0, 1.0], [3.0, -4.0]])
+            elif kind == "J2":
+                data = [1065353216, 1073741824]        # the bytes of float32 [1.0, 2.0]
+            elif kind == "F21":
+                data = [1.0, 2.0]                       # same dtype and bytes as F2 [1.0, 2.0], other shape
             elif kind == "S2":
                 data = [list(s) for s in r.choice([[b"a", b"bb"], [b"a\x00", b"bb"], [b"a", b"bb"]])]
             elif kind == "F20":
@@ -482,7 +519,7 @@ class Gen:
         local = []
         nodes = self.gen_nodes(pool, r.choice([2, 4, 6, 9, 12]), 2, None, local)
         # outputs: produced values (executable kinds only), sometimes an input / initializer / duplicate
-        ok_kinds = ("F2", "F1", "S2", "S", "I", "I2", "F12", "F4", "FD", "ID", "I1", "F112", "B2", "F20", "I112")
+        ok_kinds = ("F2", "F1", "S2", "S", "I", "I2", "F12", "F4", "FD", "ID", "I1", "F112", "B2", "F20", "I112", "J2", "F21", "F22")
         cands = [(n, k) for n, k in local if k in ok_kinds]
         outs = []
         for _ in range(r.choice([1, 2, 3])):
@@ -543,10 +580,13 @@ def noninit_inputs(mp):
 
 def same_value(a, b) -> bool:
     a, b = np.asarray(a), np.asarray(b)
+    if a.dtype == object or a.dtype.kind in "SU" or b.dtype == object or b.dtype.kind in "SU":
+        # string tensors come back as object / <U / |S arrays depending on the producing operator
+        def norm(x):
+            return x.decode("utf-8", "surrogateescape") if isinstance(x, bytes) else str(x)
+        return a.shape == b.shape and [norm(x) for x in a.ravel().tolist()] == [norm(x) for x in b.ravel().tolist()]
     if a.dtype != b.dtype or a.shape != b.shape:
         return False
-    if a.dtype == object or a.dtype.kind in "SU":
-        return [x for x in a.ravel().tolist()] == [x for x in b.ravel().tolist()]
     if a.dtype.kind == "f":
         an, bn = np.isnan(a), np.isnan(b)
         if not np.array_equal(an, bn):
@@ -572,3 +612,17 @@ def run_ort(mp, vals):
     s = ort.InferenceSession(mp.SerializeToString(), so, providers=["CPUExecutionProvider"])
     names = [vi.name for vi in noninit_inputs(mp)]
     return s.run(None, dict(zip(names, vals)))
+
+
+def ort_comparable(spec) -> bool:
+    """onnxruntime is a second voice only where it is deterministic and side-effect free: its training-mode
+    BatchNormalization updates the running statistics in place and its random operators are seeded differently."""
+    def bad(nodes):
+        for n in nodes:
+            if n["op"].startswith("Random") or (n["op"] == "BatchNormalization" and "training_mode" in n.get("attrs", {})):
+                return True
+            for tv in n.get("attrs", {}).values():
+                if tv[0] == "g" and bad(tv[1]["nodes"]):
+                    return True
+        return False
+    return not (bad(spec["nodes"]) or any(bad(f["nodes"]) for f in spec.get("functions", [])))
